@@ -221,3 +221,28 @@ def check_partition(unitaries, byann, cover=False):
             elif c > 1 and not cover:
                 probs.append(f"unit {u} of {a} is in {c} unitary alignments")
     return probs
+
+
+def optimum_two_annotators(spec, recipe):
+    """Exact minimal partition disorder for TWO annotators of any size: a unit is paired with one unit of the other
+    annotator (cost d) or left alone (cost delta_empty) - an assignment problem, solved by the Hungarian method
+    (scipy), independent of the library's enumeration, pruning and MIP."""
+    import numpy as np
+    from scipy.optimize import linear_sum_assignment
+    byann = spec_by_annotator(spec)
+    assert len(byann) == 2
+    d, de = pair_fn(recipe)
+    A, B = byann[0][1], byann[1][1]
+    p, q = len(A), len(B)
+    BIG = 1e9
+    C = np.full((p + q, p + q), BIG)
+    for i, u in enumerate(A):
+        for j, v in enumerate(B):
+            C[i, j] = d(u, v)
+        C[i, q + i] = de          # u left alone
+    for j in range(q):
+        C[p + j, j] = de          # v left alone
+    C[p:, q:] = 0.0
+    r, c = linear_sum_assignment(C)
+    total = float(C[r, c].sum())
+    return total / ((p + q) / 2)
